@@ -171,7 +171,7 @@ def staking(tier, seed):
 
 
 STAKING_REACH_EXITS = ["DelegateOk", "DelegateFromWaitList", "DelegateTooBig", "DelegateNoCandidate", "StakeNotPositive", "UnbondOk", "UnbondFromWaitList",
-                       "UnbondWholeStake", "StakeNotFound", "InsufficientStake", "InsufficientWaitList", "MoveOk", "MoveFromWaitList", "MoveEqualKeys", "LockStakeOk",
+                       "UnbondWholeStake", "StakeNotFound", "InsufficientStake", "InsufficientWaitList", "MoveOk", "MoveFromWaitList", "MoveEqualKeys", "LockStakeOk", "LockStakeNotYet",
                        "UnbondBlocked", "SwitchOffByControl", "SwitchByStranger", "SwitchOnOk", "FundsMature", "UnbondedFundsReturn", "MoveArrives", "Payout",
                        "UpdateBetweenPayouts", "ValidatorLeaves", "ValidatorLeavesWithAccum", "ValidatorJoins", "UpdatesMerged", "EmptiedStakeGone"]
 STAKING_REACH_PUNISH = ["TooAbsent", "JailedForAbsence", "SwitchedOffInGrace", "SwitchOnJailed", "SwitchOnAfterJail", "Evidence", "EvidenceTwice",
